@@ -54,7 +54,9 @@ def gen(rng, tier):
         mine = []
         for k in range(rng.randrange(1, 5)):
             r = rng.random()
-            if r < 0.45:
+            if r < 0.06:
+                ops.append(["alloc_make", "popen", rng.randrange(0, 4)])
+            elif r < 0.45:
                 ops.append(["makegateway", "popen"])
             elif r < 0.75:
                 gid = rng.choice(IDPOOL)
@@ -257,11 +259,25 @@ def oracle(case, res, hist):
             V.append(v("thread-crash", name if name == "init" else "worker", tb[-300:]))
     for op, blabel, pname in res.blocked:
         V.append(v("blocked-forever", op[2], f"actor {op[0]} op {op[1]} at {blabel}"))
+    for aid, oi, op, s1, s2, r in hist.ops(("gwexit_id",)):
+        if r is not None and r[0] == "second-exit-raised":
+            V.append(v("second-exit-raised", r[1], f"exit() of the no longer registered gateway {op[1]}: {r[1]}: {r[2]}"))
     auto_ids = []
     nmk = 0
     mk = []  # (inv, ret, wanted id or None, result id or None, exc name or None)
     forms = []  # per call: None, or the exception a deliberately failing spec has to end with
-    for aid, oi, op, s1, s2, r in hist.ops(("makegateway",)):
+    explicit = [(s1, op[1].split("id=")[1].split("//")[0]) for aid, oi, op, s1, s2, r in hist.ops(("makegateway",))
+                if "id=" in op[1]]
+    for aid, oi, op, s1, s2, r in hist.ops(("alloc_make",)):
+        # the id allocated for the spec object is used by the later makegateway(spec); the only thing that can
+        # take it away meanwhile is an explicit request for the very same 'gwN'
+        if r is None:
+            continue
+        if r[0] == "alloc-failed" and not any(w == r[1] and t1 < s2 for t1, w in explicit):
+            V.append(v("allocated-id-not-usable", r[2], f"allocate_id(spec) gave {r[1]}, makegateway(spec) raised {r[2]}: {r[3]}"))
+        elif r[0] == "gw" and r[1] != r[2]:
+            V.append(v("allocated-id-not-used", "auto", f"allocated {r[2]}, gateway got {r[1]}"))
+    for aid, oi, op, s1, s2, r in hist.ops(("makegateway", "alloc_make")):
         nmk += 1
         want = op[1].split("id=")[1].split("//")[0] if "id=" in op[1] else None
         got = r[1] if (r is not None and r[0] == "gw") else None
